@@ -241,7 +241,11 @@ fn construct(call: &str, args: &Value, rng: &mut Rng, grey: bool) -> Result<Img,
         "NewRgb" => Rgb::new(data(rng), w, h, tc(geti(args, "tc") as u8), cp(geti(args, "cp") as u8)).map(Img::Rgb).map_err(|_| "ResolutionMismatch".to_string()),
         "NewLin" => LinearRgb::new(data(rng), w, h).map(Img::Lin).map_err(|_| "ResolutionMismatch".to_string()),
         "NewXyb" => Xyb::new(if grey { vec![[0.0f32, 0.5, 0.5]; w * h] } else { rand_unit(rng, w * h) }, w, h).map(Img::Xyb).map_err(|_| "ResolutionMismatch".to_string()),
-        "NewHsl" => Hsl::new(if grey { vec![[0.0f32, 0.0, 0.5]; w * h] } else { rand_unit(rng, w * h) }, w, h).map(Img::Hsl).map_err(|_| "ResolutionMismatch".to_string()),
+        // HSL triples as the constructor accepts them: any hue, saturation and lightness also a little outside [0, 1] (what
+        // comes out of HslToLin is then outside the unit cube - and must be treated like the same samples given to `new`)
+        "NewHsl" => Hsl::new(if grey { vec![[0.0f32, 0.0, 0.5]; w * h] } else { (0..w * h).map(|_| [(rng.unit() * 360.0) as f32, (rng.unit() * 1.5) as f32, (rng.unit() * 1.5 - 0.25) as f32]).collect() }, w, h)
+            .map(Img::Hsl)
+            .map_err(|_| "ResolutionMismatch".to_string()),
         c => Err(format!("bad-call:{c}")),
     }
 }
